@@ -206,6 +206,24 @@ type Item struct {
 	corpusIdx int
 	Spec      *chainSpec
 	Body      []byte // raw request body override (malformed submissions)
+	// wrapperOf: this item is the same log entry as wrapperOf (same TBS and issuer
+	// key hash) in another pre_certificate encoding; wrappers lists, on the first
+	// item of such a group, every pre_certificate the entry was submitted with.
+	wrapperOf *Item
+	wrappers  [][]byte
+}
+
+// acceptsPreCert: pre is a pre_certificate this entry was submitted with.
+func (it *Item) acceptsPreCert(pre []byte) bool {
+	if bytes.Equal(it.Entry.PreCertificate, pre) {
+		return true
+	}
+	for _, w := range it.wrappers {
+		if bytes.Equal(w, pre) {
+			return true
+		}
+	}
+	return false
 }
 
 // Submission is one call of addLeafToPool / add-chain for an item.
